@@ -20,6 +20,9 @@ type c15Variant struct {
 var c15Fillers = []struct{ name, text string }{
 	{"newline", "\n"}, {"tab-run", "\t\t"}, {"line-comment", " -- c\n"}, {"block-comment-glued", "--(c)--"}, {"block-comment-blanks", " --(c)-- "},
 	{"crlf", "\r\n"}, {"block-comment-multiline", " --(a\nb)-- "},
+	// several ignorable tokens in ONE gap
+	{"two-line-comments", " -- a\n-- b\n"}, {"two-block-comments-glued", "--(a)----(b)--"}, {"block-then-line-comment", " --(a)-- -- b\n"},
+	{"three-comments-and-blanks", "\n--(a)--\t--(b)-- \n -- c\n "},
 }
 
 func joinWithGap(ts []gen.Tok, gap int, filler string) string {
@@ -67,7 +70,7 @@ func c15Variants(src string) (base string, vs []c15Variant) {
 		gapName := tokClass(ts[g-1]) + " | " + tokClass(ts[g])
 		for _, f := range c15Fillers {
 			text := f.text
-			if f.name == "block-comment-glued" && ts[g-1].Kind == "punct" && strings.HasSuffix(ts[g-1].Text, "-") {
+			if strings.HasPrefix(f.text, "--(") && ts[g-1].Kind == "punct" && strings.HasSuffix(ts[g-1].Text, "-") {
 				continue // "-" glued to "--(" is a different token sequence, not a layout change
 			}
 			vs = append(vs, c15Variant{joinWithGap(ts, g, text), "gap:" + f.name, gapName})
@@ -115,7 +118,7 @@ func C15(r *drv.Run) {
 	if !quick(r) {
 		ngen = 4000
 	}
-	r.Rule = "valid programs as token lists (hand corpus covering every production incl. process statements/expressions, amount clauses, named loops, ranges, caseless, regex literals; repository examples; generated programs) x EVERY gap between adjacent tokens x {newline, tab run, CRLF, line comment, block comment glued, block comment with blanks, multi-line block comment} and - where the neighbours are not both words - removal of the whitespace; every keyword individually and all together in UPPER and MiXeD case; leading/trailing layout. Oracle (metamorphic): variant accepted iff the single-blank original is, reflect.DeepEqual + canonical-dump equality of the syntax trees (hook H6), identical Run results on 3 texts. Non-trivial = every distinct variant whose three verdicts agreed; distinct by variant source."
+	r.Rule = "valid programs as token lists (hand corpus covering every production incl. process statements/expressions, amount clauses, named loops, ranges, caseless, regex literals; repository examples; generated programs) x EVERY gap between adjacent tokens x {newline, tab run, CRLF, line comment, block comment glued, block comment with blanks, multi-line block comment, two line comments, two glued block comments, block then line comment, three comments mixed with blanks} and - where the neighbours are not both words - removal of the whitespace; every keyword individually and all together in UPPER and MiXeD case; leading/trailing layout. Oracle (metamorphic): variant accepted iff the single-blank original is, reflect.DeepEqual + canonical-dump equality of the syntax trees (hook H6), identical Run results on 3 texts. Non-trivial = every distinct variant whose three verdicts agreed; distinct by variant source."
 	r.Assumptions = []string{
 		"a block comment glued directly after '-' is not a layout change (it lexes as a different token sequence) and is not generated",
 		"the harness tokenizer's token boundaries are those of the documented lexing rules; it is only applied to programs known to be valid",
